@@ -184,7 +184,8 @@ impl<'a> DeclVisitor for BuildSession<'a> {
     type Out = Session;
     fn visit<D: Decl>(self, core: bool) -> Session {
         let rng = self.rng;
-        let shape = if core { *rng.pick(&ShapeId::ALL) } else { *rng.pick(&ShapeId::BASIC) };
+        let _ = core;
+        let shape = *rng.pick(<D::Shapes as simcore::shapes::ShapeSet>::LIST);
         let fmt = *rng.pick(&Format::ALL);
         let stream = fmt.base() == Format::Json && shape == ShapeId::Bare && rng.chance(1, 5);
         let mut ops = Vec::new();
@@ -520,6 +521,9 @@ fn enum_docs<D: Decl>(core: bool) -> Vec<(ShapeId, Format, Vec<u8>, String)> {
     for fmt in Format::BASE {
         for v in &corpus {
             for shape in [ShapeId::Bare, ShapeId::RecOf] {
+                if !<D::Shapes as simcore::shapes::ShapeSet>::LIST.contains(&shape) {
+                    continue;
+                }
                 if let Ok(b) = build_doc::<D>(shape, core, fmt, &aux, vec![v.clone()], false) {
                     docs.push((shape, fmt, b, format!("{v:?}")));
                 }
@@ -635,7 +639,8 @@ impl<'a> DeclVisitor for BuildByz<'a> {
     type Out = Option<ByzPlan>;
     fn visit<D: Decl>(self, core: bool) -> Option<ByzPlan> {
         let rng = self.rng;
-        let shape = if core { *rng.pick(&ShapeId::ALL) } else { *rng.pick(&ShapeId::BASIC) };
+        let _ = core;
+        let shape = *rng.pick(<D::Shapes as simcore::shapes::ShapeSet>::LIST);
         // serde's flatten/untagged/tagged hosts buffer into `Content`, which is not self-describing
         // enough for every token kind; they are covered by the real formats.
         let shape = match shape {
